@@ -271,6 +271,10 @@ def c19(proj, rep, tier):
     rep.floor('Q2 enumeration obligations', n, 4)
     n = circuit.q5(proj, rep)
     rep.floor('Q5 count loops of the asymmetric error set', n, 2)
+    n = circuit.q6(proj, rep)
+    rep.floor('Q6 weight-enumerator normalisations', n, 2)
+    n = kdefects.al1(proj, rep, ['numqi.qec._internal', 'numqi.qec._qecc'] if tier == 'quick' else sorted(proj.modules))
+    rep.floor('AL1 loop-local containers that are modified in place (qec)', n, 2)
     n = circuit.q3(proj, rep)
     rep.floor('Q3 shipped codes', n, 8)
     n = circuit.d2(proj, rep)
